@@ -1,6 +1,7 @@
 package scen
 
 import (
+	"bytes"
 	"time"
 
 	"encoding/json"
@@ -79,6 +80,10 @@ func q17DataActions() []*explore.Action {
 		Msg("seed:Register(B,#1,R1)", &data.MsgRegisterResolver{Signer: b, ResolverId: 1, ContentHashes: []*data.ContentHash{RawHash(1)}}),
 		Msg("seed:Register(C,#2,R1)", &data.MsgRegisterResolver{Signer: c, ResolverId: 2, ContentHashes: []*data.ContentHash{RawHash(1)}}),
 		Msg("seed:Register(B,#1,G1)", &data.MsgRegisterResolver{Signer: b, ResolverId: 1, ContentHashes: []*data.ContentHash{{Graph: GraphHash(1)}}}),
+		// hashes that are not 32 bytes long under digest algorithm 1 (message validation admits 20..64 bytes)
+		Msg("seed:Anchor(B,raw-20-bytes)", &data.MsgAnchor{Sender: b, ContentHash: &data.ContentHash{Raw: &data.ContentHash_Raw{Hash: bytes.Repeat([]byte{0x20}, 20), DigestAlgorithm: 1, FileExtension: "bin"}}}),
+		Msg("seed:Attest(C,graph-64-bytes)", &data.MsgAttest{Attestor: c, ContentHashes: []*data.ContentHash_Graph{{Hash: bytes.Repeat([]byte{0x64}, 64), DigestAlgorithm: 1, CanonicalizationAlgorithm: 1}}}),
+		Msg("seed:Register(B,#1,raw-48-bytes)", &data.MsgRegisterResolver{Signer: b, ResolverId: 1, ContentHashes: []*data.ContentHash{{Raw: &data.ContentHash_Raw{Hash: bytes.Repeat([]byte{0x48}, 48), DigestAlgorithm: 1, FileExtension: "bin"}}}}),
 	}
 }
 
@@ -269,6 +274,8 @@ func Queries() Spec {
 		}}
 	}
 	add(send(B, C, 0, "1", "0"), send(B, D, -1, "1", "0.5"), send(B, Q17Long, 0, "1", "0"))
+	// rows whose three amounts are all zero: an empty send creates one for its recipient
+	add(send(B, D, 0, "0", "0"), send(C, D, -1, "0", "0"))
 	add(fix(Msg("gov:add-class-creator(B)", &basetypes.MsgAddClassCreator{Authority: G.String(), Creator: B.String()})))
 
 	// --- marketplace: two sellers, two batches, two ask denoms, one removal
